@@ -5,6 +5,7 @@ import (
 	"errors"
 	"fmt"
 	"io"
+	"math"
 	"testing"
 
 	"github.com/parquet-go/parquet-go"
@@ -439,7 +440,7 @@ func runCase(c Case, o *kit.Obs) *kit.Failure {
 	}
 	// the rows read after the forward seek are the rows of the full read at that position
 	for i := range part {
-		if at+i >= len(got) || !part[i].Equal(got[at+i]) {
+		if at+i >= len(got) || !sameRow(part[i], got[at+i]) {
 			return kit.Failf(sigOf(c, "c12/seek-differs"+feat), "row %d read after SeekToRow(%d) differs from the same row of the full read", at+i, at)
 		}
 	}
@@ -517,6 +518,34 @@ func runCase(c Case, o *kit.Obs) *kit.Failure {
 		o.NonTrivial()
 	}
 	return nil
+}
+
+// sameRow compares two rows value by value, floats by bit pattern (NaN equals itself).
+func sameRow(a, b parquet.Row) bool {
+	if len(a) != len(b) {
+		return false
+	}
+	for i := range a {
+		x, y := a[i], b[i]
+		if x.Kind() != y.Kind() || x.Column() != y.Column() || x.RepetitionLevel() != y.RepetitionLevel() || x.DefinitionLevel() != y.DefinitionLevel() {
+			return false
+		}
+		switch x.Kind() {
+		case parquet.Float:
+			if math.Float32bits(x.Float()) != math.Float32bits(y.Float()) {
+				return false
+			}
+		case parquet.Double:
+			if math.Float64bits(x.Double()) != math.Float64bits(y.Double()) {
+				return false
+			}
+		default:
+			if !parquet.Equal(x, y) {
+				return false
+			}
+		}
+	}
+	return true
 }
 
 // peek seeks to row n*at/1000 and reads up to 3 rows (cloned).
